@@ -290,6 +290,12 @@ def beta_reduce(call):
         if first_iter and not (free & (inner - {p.arg})):
             subst[p.arg] = v
             continue
+        if once and len(call.args) == 1 and not (free & inner) and p.arg not in inner:
+            # the only argument, read before anything else the body does: evaluating it there is evaluating it first
+            from .equiv import _loaded_first
+            if _loaded_first(f.body, p.arg):
+                subst[p.arg] = v
+                continue
         if (_simple(v) or isinstance(v, ast.Lambda) or (pure_read(v) and once)) and not (free & inner) and p.arg not in inner:
             subst[p.arg] = v
         else:
